@@ -6,6 +6,11 @@ import Mathlib.Tactic.Positivity
 import Mathlib.Data.Rat.Floor
 import Mathlib.Data.Nat.Factorial.Basic
 import Mathlib.Algebra.BigOperators.Group.List.Basic
+import Mathlib.Algebra.BigOperators.Intervals
+import Mathlib.Algebra.BigOperators.Ring.Finset
+import Mathlib.Algebra.Polynomial.Coeff
+import Mathlib.Data.Nat.Choose.Sum
+import Mathlib.Data.Nat.Choose.Cast
 import HailVerif.Model.StatsSpec
 import HailVerif.Generated.ScalaStats
 /-!
@@ -14,6 +19,7 @@ import HailVerif.Generated.ScalaStats
 The generated exact model (`Generated.ScalaStats.Exact`, τ = 0) against the closed forms of `Model/StatsSpec.lean`.
 -/
 open HailVerif.StatsLib HailVerif.StatsSpec HailVerif.Generated.ScalaStats
+open Finset
 
 namespace HailVerif.StatsProofs
 
@@ -521,5 +527,884 @@ theorem probability_refDist (n nA : ℕ) (h : nA ≤ n) (k : ℤ) :
       · have e1 : imod k 2 = k % 2 := by unfold imod; exact Int.tmod_eq_emod_of_nonneg (by omega)
         rw [e1, imod_two_nat]; simp; omega
     rw [hg]; simp
+
+theorem list_sum_range (g : ℕ → ℚ) (F : ℕ) : ((List.range F).map g).sum = ∑ j ∈ range F, g j := by
+  induction F with
+  | zero => simp
+  | succ F ih => rw [List.range_succ, List.map_append, List.sum_append, ih, Finset.sum_range_succ]; simp
+
+theorem sumRange_eq (lo hi : ℤ) (f : ℤ → ℚ) : sumRange lo hi f = ∑ i ∈ range (hi + 1 - lo).toNat, f (lo + (i : ℤ)) := by
+  unfold sumRange rangeIncl
+  rw [List.map_map, list_sum_range]
+  rfl
+
+/-- a sum whose odd-indexed terms vanish is the sum of its even-indexed terms -/
+theorem sum_even (h : ℕ → ℚ) (hodd : ∀ j, h (2 * j + 1) = 0) (t : ℕ) : ∑ i ∈ range (2 * t + 1), h i = ∑ j ∈ range (t + 1), h (2 * j) := by
+  induction t with
+  | zero => simp
+  | succ t ih =>
+    have e : 2 * (t + 1) + 1 = (2 * t + 1) + 1 + 1 := by ring
+    rw [e, Finset.sum_range_succ, Finset.sum_range_succ, ih, Finset.sum_range_succ (fun j => h (2 * j)) (t + 1), hodd t]
+    have e2 : 2 * t + 1 + 1 = 2 * (t + 1) := by ring
+    rw [e2]; ring
+
+theorem sum_zero_ext (g : ℕ → ℚ) (c F : ℕ) (hc : c ≤ F) (hz : ∀ j, c ≤ j → g j = 0) : ∑ j ∈ range F, g j = ∑ j ∈ range c, g j := by
+  symm
+  apply Finset.sum_subset
+  · intro x hx; rw [Finset.mem_range] at hx ⊢; omega
+  · intro x _ hx; rw [Finset.mem_range] at hx; exact hz x (by omega)
+
+/-- the weight of the natural number `i` -/
+def Wn (n nA : ℕ) (i : ℕ) : ℚ := W n nA (i : ℤ)
+
+/-- total weight of the support -/
+def S (n nA : ℕ) : ℚ := ∑ i ∈ range (nA + 1), Wn n nA i
+
+theorem W_off_parity (n nA : ℕ) (k : ℤ) (hp : k % 2 ≠ (nA : ℤ) % 2) : W n nA k = 0 :=
+  lhWeight_off _ _ _ (by unfold lhSupp; omega)
+theorem W_off_hi (n nA : ℕ) (k : ℤ) (hp : (nA : ℤ) < k) : W n nA k = 0 :=
+  lhWeight_off _ _ _ (by unfold lhSupp; omega)
+theorem W_off_lo (n nA : ℕ) (k : ℤ) (hp : k < 0) : W n nA k = 0 :=
+  lhWeight_off _ _ _ (by unfold lhSupp; omega)
+
+/-- the right stream sums to the weights from the mode upward -/
+theorem sumR_eq (n nA : ℕ) (h : nA ≤ n) :
+    ((List.range (lhFuel nA)).map (gR n nA)).sum = (∑ i ∈ range (nA + 1 - (refMode n nA).toNat), W n nA (refMode n nA + (i : ℤ))) / W n nA (refMode n nA) := by
+  have hs := refMode_supp n nA h
+  unfold lhSupp at hs
+  obtain ⟨M, hM⟩ := Int.eq_ofNat_of_zero_le hs.1
+  obtain ⟨t, ht⟩ : ∃ t : ℕ, nA = M + 2 * t := ⟨(nA - M) / 2, by omega⟩
+  rw [list_sum_range]
+  unfold gR
+  simp only [div_eq_mul_inv]
+  rw [← Finset.sum_mul]
+  congr 1
+  rw [sum_zero_ext _ (t + 1) _ (by unfold lhFuel; omega) (fun j hj => W_off_hi n nA _ (by omega))]
+  have e : nA + 1 - (refMode n nA).toNat = 2 * t + 1 := by omega
+  rw [e, sum_even (fun i => W n nA (refMode n nA + (i : ℤ))) (fun j => W_off_parity n nA _ (by push_cast; omega)) t]
+  apply Finset.sum_congr rfl
+  intro j _
+  push_cast; rfl
+
+theorem sumL_eq (n nA : ℕ) (h : nA ≤ n) :
+    ((List.range (lhFuel nA)).map (gL n nA)).sum = (∑ i ∈ range ((refMode n nA).toNat + 1), W n nA (refMode n nA - (i : ℤ))) / W n nA (refMode n nA) := by
+  have hs := refMode_supp n nA h
+  unfold lhSupp at hs
+  obtain ⟨M, hM⟩ := Int.eq_ofNat_of_zero_le hs.1
+  rw [list_sum_range]
+  unfold gL
+  simp only [div_eq_mul_inv]
+  rw [← Finset.sum_mul]
+  congr 1
+  rw [sum_zero_ext _ (M / 2 + 1) _ (by unfold lhFuel; omega) (fun j hj => W_off_lo n nA _ (by omega))]
+  have hev := sum_even (fun i => W n nA (refMode n nA - (i : ℤ))) (fun j => W_off_parity n nA _ (by push_cast; omega)) (M / 2)
+  have e1 : (∑ j ∈ range (M / 2 + 1), W n nA (refMode n nA - 2 * (j : ℤ))) = ∑ j ∈ range (M / 2 + 1), (fun i : ℕ => W n nA (refMode n nA - (i : ℤ))) (2 * j) := by
+    apply Finset.sum_congr rfl; intro j _; push_cast; rfl
+  rw [e1, ← hev]
+  by_cases hpar : M % 2 = 0
+  · have : (refMode n nA).toNat + 1 = 2 * (M / 2) + 1 := by omega
+    rw [this]
+  · have : (refMode n nA).toNat + 1 = (2 * (M / 2) + 1) + 1 := by omega
+    rw [this, Finset.sum_range_succ _ (2 * (M / 2) + 1)]
+    have : W n nA (refMode n nA - ((2 * (M / 2) + 1 : ℕ) : ℤ)) = 0 := W_off_parity n nA _ (by push_cast; omega)
+    rw [this, add_zero]
+
+/-- the normaliser of the exact model is the total weight of the support relative to the mode -/
+theorem T_eq (n nA : ℕ) (h : nA ≤ n) : T n nA = S n nA / W n nA (refMode n nA) := by
+  have hs := refMode_supp n nA h
+  have hpos := W_mode_pos n nA h
+  unfold lhSupp at hs
+  obtain ⟨M, hM⟩ := Int.eq_ofNat_of_zero_le hs.1
+  unfold T
+  rw [sumR_eq n nA h, sumL_eq n nA h, hM]
+  simp only [Int.toNat_natCast]
+  rw [← Finset.sum_range_reflect (fun i => W n nA ((M : ℤ) - (i : ℤ))) (M + 1)]
+  have e1 : ∑ j ∈ range (M + 1), W n nA ((M : ℤ) - ((M + 1 - 1 - j : ℕ) : ℤ)) = ∑ j ∈ range (M + 1), Wn n nA j := by
+    apply Finset.sum_congr rfl
+    intro j hj; rw [Finset.mem_range] at hj
+    unfold Wn; congr 1; omega
+  have e2 : ∑ i ∈ range (nA + 1 - M), W n nA ((M : ℤ) + (i : ℤ)) = ∑ i ∈ range (nA + 1 - M), Wn n nA (M + i) := by
+    apply Finset.sum_congr rfl; intro j _; unfold Wn; push_cast; rfl
+  rw [e1, e2]
+  unfold S
+  have hsplit : nA + 1 = M + (nA + 1 - M) := by omega
+  conv_rhs => rw [hsplit, Finset.sum_range_add]
+  rw [Finset.sum_range_succ (Wn n nA) M]
+  have hWM : Wn n nA M = W n nA (M : ℤ) := rfl
+  have hne : W n nA (refMode n nA) ≠ 0 := ne_of_gt hpos
+  rw [hM] at hne
+  rw [hWM]
+  field_simp
+  ring
+
+theorem sumRange_empty (lo hi : ℤ) (f : ℤ → ℚ) (h : hi < lo) : sumRange lo hi f = 0 := by
+  rw [sumRange_eq]
+  have : (hi + 1 - lo).toNat = 0 := by omega
+  rw [this]; simp
+
+theorem sumRange_succ (lo hi : ℤ) (f : ℤ → ℚ) (h : lo ≤ hi + 1) : sumRange lo (hi + 1) f = sumRange lo hi f + f (hi + 1) := by
+  rw [sumRange_eq, sumRange_eq]
+  have : (hi + 1 + 1 - lo).toNat = (hi + 1 - lo).toNat + 1 := by omega
+  rw [this, Finset.sum_range_succ]
+  congr 2
+  omega
+
+theorem sumRange_split (lo mid hi : ℤ) (f : ℤ → ℚ) (h1 : lo ≤ mid + 1) (h2 : mid ≤ hi) :
+    sumRange lo hi f = sumRange lo mid f + sumRange (mid + 1) hi f := by
+  rw [sumRange_eq, sumRange_eq, sumRange_eq]
+  have : (hi + 1 - lo).toNat = (mid + 1 - lo).toNat + (hi + 1 - (mid + 1)).toNat := by omega
+  rw [this, Finset.sum_range_add]
+  congr 1
+  apply Finset.sum_congr rfl
+  intro i _
+  congr 1
+  omega
+
+theorem sumRange_first (lo hi : ℤ) (f : ℤ → ℚ) (h : lo ≤ hi) : sumRange lo hi f = f lo + sumRange (lo + 1) hi f := by
+  rw [sumRange_split lo lo hi f (by omega) h]
+  congr 1
+  rw [sumRange_eq]
+  have : (lo + 1 - lo).toNat = 1 := by omega
+  rw [this]; simp
+
+theorem sumRange_nonneg (lo hi : ℤ) (f : ℤ → ℚ) (h : ∀ k, 0 ≤ f k) : 0 ≤ sumRange lo hi f := by
+  rw [sumRange_eq]; exact Finset.sum_nonneg (fun i _ => h _)
+
+theorem sumRange_congr (lo hi : ℤ) (f g : ℤ → ℚ) (h : ∀ k, lo ≤ k → k ≤ hi → f k = g k) : sumRange lo hi f = sumRange lo hi g := by
+  rw [sumRange_eq, sumRange_eq]
+  apply Finset.sum_congr rfl
+  intro i hi'
+  rw [Finset.mem_range] at hi'
+  exact h _ (by omega) (by omega)
+
+theorem sumRange_div (lo hi : ℤ) (f : ℤ → ℚ) (c : ℚ) : sumRange lo hi (fun k => f k / c) = sumRange lo hi f / c := by
+  rw [sumRange_eq, sumRange_eq]
+  simp only [div_eq_mul_inv]
+  rw [Finset.sum_mul]
+
+/-- lattice sums going right: `Σ_{a ≤ j < b} f(s + 2j) = Σ_{s+2a ≤ k ≤ s+2b-2} f(k)` when `f` vanishes off the lattice `s + 2ℤ` -/
+theorem lattice_up (f : ℤ → ℚ) (s : ℤ) (hoff : ∀ k : ℤ, k % 2 ≠ s % 2 → f k = 0) (a b : ℕ) :
+    ∑ j ∈ Ico a b, f (s + 2 * (j : ℤ)) = sumRange (s + 2 * a) (s + 2 * b - 2) f := by
+  by_cases hab : a < b
+  · obtain ⟨t, ht⟩ : ∃ t, b = a + t + 1 := ⟨b - a - 1, by omega⟩
+    rw [Finset.sum_Ico_eq_sum_range, sumRange_eq]
+    have e1 : b - a = t + 1 := by omega
+    have e2 : (s + 2 * (b : ℤ) - 2 + 1 - (s + 2 * (a : ℤ))).toNat = 2 * t + 1 := by omega
+    rw [e1, e2, sum_even (fun i => f (s + 2 * (a : ℤ) + (i : ℤ))) (fun j => hoff _ (by push_cast; omega)) t]
+    apply Finset.sum_congr rfl
+    intro j _
+    congr 1; push_cast; ring
+  · rw [Finset.Ico_eq_empty (by omega), Finset.sum_empty, sumRange_empty _ _ _ (by omega)]
+
+/-- lattice sums going left: `Σ_{a ≤ j < b} f(s - 2j) = Σ_{s-2b+2 ≤ k ≤ s-2a} f(k)` -/
+theorem lattice_down (f : ℤ → ℚ) (s : ℤ) (hoff : ∀ k : ℤ, k % 2 ≠ s % 2 → f k = 0) (a b : ℕ) :
+    ∑ j ∈ Ico a b, f (s - 2 * (j : ℤ)) = sumRange (s - 2 * b + 2) (s - 2 * a) f := by
+  by_cases hab : a < b
+  · obtain ⟨t, ht⟩ : ∃ t, b = a + t + 1 := ⟨b - a - 1, by omega⟩
+    have hup := lattice_up f (s - 2 * (b : ℤ) + 2) (fun k hk => hoff k (by omega)) 0 (t + 1)
+    simp only [Nat.cast_zero, mul_zero, add_zero] at hup
+    have e3 : s - 2 * (b : ℤ) + 2 + 2 * ((t + 1 : ℕ) : ℤ) - 2 = s - 2 * (a : ℤ) := by rw [ht]; push_cast; ring
+    rw [e3] at hup
+    rw [← hup, Finset.sum_Ico_eq_sum_range]
+    have e1 : b - a = t + 1 := by omega
+    rw [e1]
+    simp only [← Finset.range_eq_Ico]
+    rw [← Finset.sum_range_reflect]
+    apply Finset.sum_congr rfl
+    intro j hj
+    rw [Finset.mem_range] at hj
+    congr 1
+    rw [ht]; push_cast
+    have : ((t - j : ℕ) : ℤ) = (t : ℤ) - j := by omega
+    rw [this]; ring
+  · rw [Finset.Ico_eq_empty (by omega), Finset.sum_empty, sumRange_empty _ _ _ (by omega)]
+
+theorem slice_map_range (g : ℕ → ℚ) (F : ℕ) (a b : ℤ) :
+    slice ((List.range F).map g) a b = (List.range' a.toNat (min b.toNat F - a.toNat)).map g := by
+  unfold slice
+  rw [← List.map_take, ← List.map_drop, List.take_range, List.range_eq_range', List.drop_range']
+  simp
+
+theorem sum_map_range' (g : ℕ → ℚ) (s len : ℕ) : ((List.range' s len).map g).sum = ∑ j ∈ Ico s (s + len), g j := by
+  rw [List.range'_eq_map_range, List.map_map, list_sum_range, Finset.sum_Ico_eq_sum_range]
+  simp
+
+/-- `s.slice(a, b).takeWhile(_ > 0).sum` on a non-negative non-increasing stream is the plain sum over the slice -/
+theorem slice_sum (g : ℕ → ℚ) (hg : Antitone g) (hn : ∀ j, 0 ≤ g j) (F : ℕ) (a b : ℤ) :
+    sumL ((slice ((List.range F).map g) a b).takeWhile (fun x => decide (x > 0))) = ∑ j ∈ Ico a.toNat (min b.toNat F), g j := by
+  rw [sumL_eq_sum, slice_map_range]
+  have hpw : ((List.range' a.toNat (min b.toNat F - a.toNat)).map g).Pairwise (· ≥ ·) := by
+    rw [List.pairwise_map]
+    exact List.Pairwise.imp (fun {x y} hxy => hg (le_of_lt hxy)) (List.pairwise_lt_range')
+  have hnn : ∀ x ∈ (List.range' a.toNat (min b.toNat F - a.toNat)).map g, 0 ≤ x := by
+    intro x hx; obtain ⟨j, _, rfl⟩ := List.mem_map.mp hx; exact hn j
+  rw [sum_takeWhile_pos _ hnn hpw, sum_map_range']
+  by_cases h : a.toNat ≤ min b.toNat F
+  · congr 2; omega
+  · rw [Finset.Ico_eq_empty (by omega), Finset.Ico_eq_empty (by omega)]
+
+theorem gR_zero_beyond (n nA : ℕ) (h : nA ≤ n) (j : ℕ) (hj : nA / 2 < j) : gR n nA j = 0 := by
+  have hs := refMode_supp n nA h
+  unfold lhSupp at hs
+  unfold gR
+  rw [W_off_hi n nA _ (by omega), zero_div]
+
+theorem gL_zero_beyond (n nA : ℕ) (h : nA ≤ n) (j : ℕ) (hj : nA / 2 < j) : gL n nA j = 0 := by
+  have hs := refMode_supp n nA h
+  unfold lhSupp at hs
+  unfold gL
+  rw [W_off_lo n nA _ (by omega), zero_div]
+
+theorem Ico_min_ext (g : ℕ → ℚ) (a b F : ℕ) (hz : ∀ j, F ≤ j → g j = 0) : ∑ j ∈ Ico a (min b F), g j = ∑ j ∈ Ico a b, g j := by
+  apply Finset.sum_subset
+  · intro x hx; rw [Finset.mem_Ico] at hx ⊢; omega
+  · intro x hx hx'; rw [Finset.mem_Ico] at hx hx'; exact hz x (by omega)
+
+/-- slices of the right stream, as sums of weights -/
+theorem sliceR_sum (n nA : ℕ) (h : nA ≤ n) (a b : ℤ) :
+    sumL ((slice ((List.range (lhFuel nA)).map (gR n nA)) a b).takeWhile (fun x => decide (x > 0)))
+      = sumRange (refMode n nA + 2 * a.toNat) (refMode n nA + 2 * b.toNat - 2) (W n nA) / W n nA (refMode n nA) := by
+  have hs := refMode_supp n nA h
+  unfold lhSupp at hs
+  rw [slice_sum _ (gR_antitone n nA h) (gR_nonneg n nA), Ico_min_ext _ _ _ _ (fun j hj => gR_zero_beyond n nA h j (by unfold lhFuel at hj; omega))]
+  unfold gR
+  simp only [div_eq_mul_inv]
+  rw [← Finset.sum_mul, lattice_up (W n nA) (refMode n nA) (fun k hk => W_off_parity n nA k (by omega))]
+
+theorem sliceL_sum (n nA : ℕ) (h : nA ≤ n) (a b : ℤ) :
+    sumL ((slice ((List.range (lhFuel nA)).map (gL n nA)) a b).takeWhile (fun x => decide (x > 0)))
+      = sumRange (refMode n nA - 2 * b.toNat + 2) (refMode n nA - 2 * a.toNat) (W n nA) / W n nA (refMode n nA) := by
+  have hs := refMode_supp n nA h
+  unfold lhSupp at hs
+  rw [slice_sum _ (gL_antitone n nA h) (gL_nonneg n nA), Ico_min_ext _ _ _ _ (fun j hj => gL_zero_beyond n nA h j (by unfold lhFuel at hj; omega))]
+  unfold gL
+  simp only [div_eq_mul_inv]
+  rw [← Finset.sum_mul, lattice_down (W n nA) (refMode n nA) (fun k hk => W_off_parity n nA k (by omega))]
+
+theorem cum2_mk (n' nA' M : ℤ) (pRU pLU : List ℚ) (pN : ℚ) (n0 n1 : ℤ) :
+    Exact.LeveneHaldane_cumulativeProbability_2 0 (LHDist.mk n' nA' M pRU pLU pN) n0 n1 =
+      (if ((decide (n0 ≥ n1) || decide (n0 ≥ nA')) || decide (n1 < imod nA' 2)) then 0
+       else if decide (n0 ≥ M) then
+         sumL ((slice pRU (idiv (n0 - M) 2 + 1) (idiv (n1 - M) 2 + 1)).takeWhile
+           (fun x => decide (x > idx pRU (idiv (n0 - M) 2 + 1) * (0 * (1 / 10000000000000000))))) / pN
+       else if decide (n1 < M) then
+         sumL ((slice pLU (idiv (M - n1 + 1) 2) (idiv (M - n0 + 1) 2)).takeWhile
+           (fun x => decide (x > idx pLU (idiv (M - n1 + 1) 2) * (0 * (1 / 10000000000000000))))) / pN
+       else
+         (sumL ((slice pLU 1 (idiv (M - n0 + 1) 2)).takeWhile (fun x => decide (x > 0 * (1 / 10000000000000000)))) +
+          sumL ((slice pRU 0 (idiv (n1 - M) 2 + 1)).takeWhile (fun x => decide (x > 0 * (1 / 10000000000000000))))) / pN) := rfl
+
+theorem sumRange_zero (lo hi : ℤ) (f : ℤ → ℚ) (h : ∀ k, lo ≤ k → k ≤ hi → f k = 0) : sumRange lo hi f = 0 := by
+  rw [sumRange_congr lo hi f (fun _ => 0) h, sumRange_eq]; simp
+
+theorem sumRange_trim_lo (lo hi : ℤ) (f : ℤ → ℚ) (h : f lo = 0) : sumRange lo hi f = sumRange (lo + 1) hi f := by
+  by_cases hl : lo ≤ hi
+  · rw [sumRange_first lo hi f hl, h, zero_add]
+  · rw [sumRange_empty _ _ _ (by omega), sumRange_empty _ _ _ (by omega)]
+
+theorem sumRange_trim_hi (lo hi : ℤ) (f : ℤ → ℚ) (h : f (hi + 1) = 0) : sumRange lo (hi + 1) f = sumRange lo hi f := by
+  by_cases hl : lo ≤ hi + 1
+  · rw [sumRange_succ lo hi f hl, h, add_zero]
+  · rw [sumRange_empty _ _ _ (by omega), sumRange_empty _ _ _ (by omega)]
+
+/-- `cumulativeProbability(n0, n1)` of the exact model is `Σ_{n0 < k ≤ n1} W k` over the normaliser — for ALL integers `n0`, `n1` -/
+theorem cum2_refDist (n nA : ℕ) (h : nA ≤ n) (n0 n1 : ℤ) :
+    Exact.LeveneHaldane_cumulativeProbability_2 0 (refDist' n nA) n0 n1 =
+      sumRange (n0 + 1) n1 (W n nA) / (W n nA (refMode n nA) * T n nA) := by
+  have hs := refMode_supp n nA h
+  unfold lhSupp at hs
+  have hpos := W_mode_pos n nA h
+  have hT := T_pos n nA h
+  set M := refMode n nA with hMdef
+  unfold refDist'
+  rw [cum2_mk, imod_two_nat]
+  simp only [zero_mul, mul_zero]
+  by_cases hg : n0 ≥ n1 ∨ n0 ≥ (nA : ℤ) ∨ n1 < (nA : ℤ) % 2
+  · have : ((decide (n0 ≥ n1) || decide (n0 ≥ (nA : ℤ))) || decide (n1 < (nA : ℤ) % 2)) = true := by simp; omega
+    rw [this]; simp only [if_true]
+    have hz : sumRange (n0 + 1) n1 (W n nA) = 0 :=
+      sumRange_zero (n0 + 1) n1 (W n nA) (fun k hk1 hk2 => lhWeight_off nA (2 * n - nA) k (by unfold lhSupp; omega))
+    rw [hz, zero_div]
+  · have : ((decide (n0 ≥ n1) || decide (n0 ≥ (nA : ℤ))) || decide (n1 < (nA : ℤ) % 2)) = false := by simp; omega
+    rw [this]; simp only [Bool.false_eq_true, if_false]
+    by_cases h1 : n0 ≥ M
+    · have : decide (n0 ≥ M) = true := by simpa using h1
+      rw [this]; simp only [if_true]
+      rw [sliceR_sum n nA h, div_div, idiv_two_nonneg _ (by omega), idiv_two_nonneg _ (by omega)]
+      congr 1
+      have ea : (((n0 - M) / 2 + 1).toNat : ℤ) = (n0 - M) / 2 + 1 := by omega
+      have eb : (((n1 - M) / 2 + 1).toNat : ℤ) = (n1 - M) / 2 + 1 := by omega
+      rw [ea, eb]
+      -- align the two ends with the lattice
+      have lo : sumRange (n0 + 1) n1 (W n nA) = sumRange (M + 2 * ((n0 - M) / 2 + 1)) n1 (W n nA) := by
+        by_cases hp : (n0 - M) % 2 = 0
+        · rw [sumRange_trim_lo _ _ _ (W_off_parity n nA (n0 + 1) (by omega))]; congr 1; omega
+        · congr 1; omega
+      have hi : sumRange (M + 2 * ((n0 - M) / 2 + 1)) n1 (W n nA) = sumRange (M + 2 * ((n0 - M) / 2 + 1)) (M + 2 * ((n1 - M) / 2 + 1) - 2) (W n nA) := by
+        by_cases hp : (n1 - M) % 2 = 0
+        · congr 1; omega
+        · have : n1 = (M + 2 * ((n1 - M) / 2 + 1) - 2) + 1 := by omega
+          conv_lhs => rw [this]
+          rw [sumRange_trim_hi _ _ _ (W_off_parity n nA _ (by omega))]
+      rw [lo, hi]
+    · have : decide (n0 ≥ M) = false := by simpa using h1
+      rw [this]; simp only [Bool.false_eq_true, if_false]
+      by_cases h2 : n1 < M
+      · have : decide (n1 < M) = true := by simpa using h2
+        rw [this]; simp only [if_true]
+        rw [sliceL_sum n nA h, div_div, idiv_two_nonneg _ (by omega), idiv_two_nonneg _ (by omega)]
+        congr 1
+        have ea : (((M - n1 + 1) / 2).toNat : ℤ) = (M - n1 + 1) / 2 := by omega
+        have eb : (((M - n0 + 1) / 2).toNat : ℤ) = (M - n0 + 1) / 2 := by omega
+        rw [ea, eb]
+        have lo : sumRange (n0 + 1) n1 (W n nA) = sumRange (M - 2 * ((M - n0 + 1) / 2) + 2) n1 (W n nA) := by
+          by_cases hp : (M - n0) % 2 = 0
+          · rw [sumRange_trim_lo _ _ _ (W_off_parity n nA (n0 + 1) (by omega))]; congr 1; omega
+          · congr 1; omega
+        have hi : sumRange (M - 2 * ((M - n0 + 1) / 2) + 2) n1 (W n nA) = sumRange (M - 2 * ((M - n0 + 1) / 2) + 2) (M - 2 * ((M - n1 + 1) / 2)) (W n nA) := by
+          by_cases hp : (M - n1) % 2 = 0
+          · congr 1; omega
+          · have : n1 = (M - 2 * ((M - n1 + 1) / 2)) + 1 := by omega
+            conv_lhs => rw [this]
+            rw [sumRange_trim_hi _ _ _ (W_off_parity n nA _ (by omega))]
+        rw [lo, hi]
+      · have : decide (n1 < M) = false := by simpa using h2
+        rw [this]; simp only [Bool.false_eq_true, if_false]
+        rw [sliceL_sum n nA h, sliceR_sum n nA h, ← add_div, div_div, idiv_two_nonneg _ (by omega), idiv_two_nonneg _ (by omega)]
+        congr 1
+        have eb : (((M - n0 + 1) / 2).toNat : ℤ) = (M - n0 + 1) / 2 := by omega
+        have ec : (((n1 - M) / 2 + 1).toNat : ℤ) = (n1 - M) / 2 + 1 := by omega
+        rw [eb, ec]
+        simp only [Int.toNat_one, Int.toNat_zero, Nat.cast_one, Nat.cast_zero, mul_one, mul_zero, add_zero]
+        -- Σ_{n0 < k ≤ n1} = Σ_{n0 < k ≤ M-2} + W(M-1) + Σ_{M ≤ k ≤ n1}
+        have hsplit := sumRange_split (n0 + 1) (M - 1) n1 (W n nA) (by omega) (by omega)
+        have e1 : M - 1 + 1 = M := by ring
+        rw [e1] at hsplit
+        have hmid : sumRange (n0 + 1) (M - 1) (W n nA) = sumRange (n0 + 1) (M - 2) (W n nA) := by
+          have : M - 1 = (M - 2) + 1 := by ring
+          rw [this, sumRange_trim_hi _ _ _ (W_off_parity n nA _ (by omega))]
+        have lo : sumRange (n0 + 1) (M - 2) (W n nA) = sumRange (M - 2 * ((M - n0 + 1) / 2) + 2) (M - 2) (W n nA) := by
+          by_cases hp : (M - n0) % 2 = 0
+          · rw [sumRange_trim_lo _ _ _ (W_off_parity n nA (n0 + 1) (by omega))]; congr 1; omega
+          · congr 1; omega
+        have hi : sumRange M n1 (W n nA) = sumRange M (M + 2 * ((n1 - M) / 2 + 1) - 2) (W n nA) := by
+          by_cases hp : (n1 - M) % 2 = 0
+          · congr 1; omega
+          · have : n1 = (M + 2 * ((n1 - M) / 2 + 1) - 2) + 1 := by omega
+            conv_lhs => rw [this]
+            rw [sumRange_trim_hi _ _ _ (W_off_parity n nA _ (by omega))]
+        rw [hsplit, hmid, lo, hi]
+
+/-! ## the tolerance comparisons at τ = 0 are the exact comparisons -/
+
+theorem absQ_nonneg (a : ℚ) : 0 ≤ absQ a := by unfold absQ; split <;> linarith
+theorem absQ_eq_zero (a : ℚ) : absQ a ≤ 0 ↔ a = 0 := by
+  unfold absQ; split
+  · constructor <;> intro h <;> linarith
+  · constructor <;> intro h <;> linarith
+
+theorem D_epsilon_zero (a b c : ℚ) : Exact.utils_D_epsilon 0 a b (0 * c) = 0 := by
+  unfold Exact.utils_D_epsilon; simp
+
+theorem D_eq_zero (a b c : ℚ) : Exact.utils_D_eq 0 a b (0 * c) = decide (a = b) := by
+  unfold Exact.utils_D_eq
+  rw [D_epsilon_zero]
+  by_cases h : a = b
+  · simp [h]
+  · have : ¬ absQ (a - b) ≤ 0 := by rw [absQ_eq_zero]; intro h'; exact h (by linarith)
+    simp [h, this]
+
+theorem D_gt_zero (a b c : ℚ) : Exact.utils_D_gt 0 a b (0 * c) = decide (a > b) := by
+  unfold Exact.utils_D_gt
+  rw [D_epsilon_zero]
+  by_cases h : a = b
+  · simp [h]
+  · by_cases h2 : a > b
+    · have : a - b > 0 := by linarith
+      simp [h, h2, this]
+    · have : ¬ a - b > 0 := by intro h'; exact h2 (by linarith)
+      simp [h, h2, this]
+
+theorem D_eq_zero' (a b : ℚ) : Exact.utils_D_eq 0 a b 0 = decide (a = b) := by
+  have := D_eq_zero a b 1; rwa [zero_mul] at this
+theorem D_gt_zero' (a b : ℚ) : Exact.utils_D_gt 0 a b 0 = decide (a > b) := by
+  have := D_gt_zero a b 1; rwa [zero_mul] at this
+
+theorem defaultTolerance_zero : Exact.utils_defaultTolerance 0 = 0 * (1 / 1000000) := rfl
+
+/-- `mpU` of `exactMidP` at τ = 0: skip the entries above `t`, half of the entries equal to `t`, all of the (positive) entries below -/
+def mpU0 (t : ℚ) (s : List ℚ) : ℚ :=
+  let pr := List.span (fun x => decide (x = t)) (List.dropWhile (fun x => decide (x > t)) s)
+  1 / 2 * sumL pr.1 + sumL (List.takeWhile (fun x => decide (x > 0)) pr.2)
+
+theorem exactMidP_mk (n' nA' M : ℤ) (pRU pLU : List ℚ) (pN : ℚ) (k : ℤ) :
+    Exact.LeveneHaldane_exactMidP 0 (LHDist.mk n' nA' M pRU pLU pN) k =
+      (if decide (Exact.LeveneHaldane_probability 0 (LHDist.mk n' nA' M pRU pLU pN) k * pN = 0) then 0
+       else (mpU0 (Exact.LeveneHaldane_probability 0 (LHDist.mk n' nA' M pRU pLU pN) k * pN) pLU.tail +
+             mpU0 (Exact.LeveneHaldane_probability 0 (LHDist.mk n' nA' M pRU pLU pN) k * pN) pRU) / pN) := by
+  unfold Exact.LeveneHaldane_exactMidP mpU0
+  simp only [defaultTolerance_zero, mul_zero, zero_mul, D_eq_zero', D_gt_zero']
+
+/-- contribution of an outcome of (relative) probability `x` to the two-sided mid-p of an outcome of probability `t` -/
+def midW (t x : ℚ) : ℚ := if x < t then x else if x = t then 1 / 2 * x else 0
+
+theorem midW_nonneg (t x : ℚ) (hx : 0 ≤ x) : 0 ≤ midW t x := by
+  unfold midW; split
+  · exact hx
+  · split
+    · linarith
+    · exact le_refl _
+
+theorem midW_le (t x : ℚ) (hx : 0 ≤ x) : midW t x ≤ x := by
+  unfold midW; split
+  · exact le_refl _
+  · split
+    · linarith
+    · exact hx
+
+/-- below the threshold everything counts fully -/
+theorem sum_midW_below (t : ℚ) (l : List ℚ) (h : ∀ y ∈ l, y < t) : (l.map (midW t)).sum = l.sum := by
+  induction l with
+  | nil => rfl
+  | cons x xs ih =>
+    rw [List.map_cons, List.sum_cons, List.sum_cons, ih (fun y hy => h y (List.mem_cons_of_mem _ hy))]
+    unfold midW; rw [if_pos (h x List.mem_cons_self)]
+
+theorem span_part (t : ℚ) (l : List ℚ) (hn : ∀ x ∈ l, 0 ≤ x) (hs : l.Pairwise (· ≥ ·)) (hle : ∀ x ∈ l, x ≤ t) :
+    1 / 2 * (List.span (fun x => decide (x = t)) l).1.sum + (List.takeWhile (fun x => decide (x > 0)) (List.span (fun x => decide (x = t)) l).2).sum
+      = (l.map (midW t)).sum := by
+  induction l with
+  | nil => rw [List.span_eq_takeWhile_dropWhile]; simp
+  | cons x xs ih =>
+    have hs' := (List.pairwise_cons.mp hs)
+    by_cases hx : x = t
+    · have : List.span (fun x => decide (x = t)) (x :: xs) = (x :: (List.span (fun x => decide (x = t)) xs).1, (List.span (fun x => decide (x = t)) xs).2) := by
+        rw [List.span_eq_takeWhile_dropWhile, List.span_eq_takeWhile_dropWhile, List.takeWhile_cons_of_pos (by simpa using hx), List.dropWhile_cons_of_pos (by simpa using hx)]
+      rw [this]
+      simp only [List.sum_cons, List.map_cons]
+      have ih' := ih (fun y hy => hn y (List.mem_cons_of_mem _ hy)) hs'.2 (fun y hy => hle y (List.mem_cons_of_mem _ hy))
+      have hm : midW t x = 1 / 2 * x := by unfold midW; rw [if_neg (by rw [hx]; exact lt_irrefl _), if_pos hx]
+      rw [hm, ← ih']; ring
+    · have hlt : x < t := lt_of_le_of_ne (hle x List.mem_cons_self) hx
+      have : List.span (fun x => decide (x = t)) (x :: xs) = ([], x :: xs) := by
+        rw [List.span_eq_takeWhile_dropWhile, List.takeWhile_cons_of_neg (by simpa using hx), List.dropWhile_cons_of_neg (by simpa using hx)]
+      rw [this]
+      simp only [List.sum_nil, mul_zero, zero_add]
+      rw [sum_takeWhile_pos _ hn hs, sum_midW_below t (x :: xs)]
+      intro y hy
+      rcases List.mem_cons.mp hy with rfl | hy'
+      · exact hlt
+      · exact lt_of_le_of_lt (hs'.1 y hy') hlt
+
+/-- `mpU` on a non-negative non-increasing stream -/
+theorem mpU0_eq (t : ℚ) (l : List ℚ) (hn : ∀ x ∈ l, 0 ≤ x) (hs : l.Pairwise (· ≥ ·)) : mpU0 t l = (l.map (midW t)).sum := by
+  unfold mpU0
+  simp only [sumL_eq_sum]
+  induction l with
+  | nil => rw [List.span_eq_takeWhile_dropWhile]; simp
+  | cons x xs ih =>
+    have hs' := (List.pairwise_cons.mp hs)
+    by_cases hx : x > t
+    · rw [List.dropWhile_cons_of_pos (by simpa using hx), ih (fun y hy => hn y (List.mem_cons_of_mem _ hy)) hs'.2, List.map_cons, List.sum_cons]
+      have : midW t x = 0 := by
+        unfold midW; rw [if_neg (by linarith), if_neg (by intro h; rw [h] at hx; exact lt_irrefl _ hx)]
+      rw [this, zero_add]
+    · rw [List.dropWhile_cons_of_neg (by simpa using hx)]
+      apply span_part t (x :: xs) hn hs
+      intro y hy
+      rcases List.mem_cons.mp hy with rfl | hy'
+      · exact not_lt.mp hx
+      · exact le_trans (hs'.1 y hy') (not_lt.mp hx)
+
+theorem midW_zero (t : ℚ) : midW t 0 = 0 := by
+  unfold midW; split
+  · rfl
+  · split <;> simp
+
+theorem list_sum_map_map (f : ℚ → ℚ) (g : ℕ → ℚ) (l : List ℕ) : ((l.map g).map f) = l.map (fun j => f (g j)) := by
+  rw [List.map_map]; rfl
+
+/-- `exactMidP(k)` of the exact model: outcomes less probable than `k` in full, equally probable ones by half, over the normaliser -/
+theorem exactMidP_refDist (n nA : ℕ) (h : nA ≤ n) (k : ℤ) :
+    Exact.LeveneHaldane_exactMidP 0 (refDist' n nA) k =
+      sumRange 0 nA (fun i => midW (W n nA k / W n nA (refMode n nA)) (W n nA i / W n nA (refMode n nA))) / T n nA := by
+  have hs := refMode_supp n nA h
+  unfold lhSupp at hs
+  have hpos := W_mode_pos n nA h
+  have hT := T_pos n nA h
+  have hprob := probability_refDist n nA h k
+  set M := refMode n nA with hMdef
+  set t := W n nA k / W n nA M with ht
+  set f : ℤ → ℚ := fun i => midW t (W n nA i / W n nA M) with hf
+  have hfoff : ∀ i : ℤ, W n nA i = 0 → f i = 0 := by intro i hi; simp only [hf, hi, zero_div, midW_zero]
+  unfold refDist' at hprob ⊢
+  rw [exactMidP_mk, hprob]
+  have hp0 : W n nA k / (W n nA M * T n nA) * T n nA = t := by
+    rw [ht]; field_simp
+  rw [hp0]
+  by_cases hk0 : t = 0
+  · -- k is not a possible outcome: every other outcome is more probable
+    have : decide (t = 0) = true := by simpa using hk0
+    rw [this]; simp only [if_true]
+    have hz : sumRange 0 nA f = 0 := by
+      apply sumRange_zero
+      intro i _ _
+      simp only [hf, hk0]
+      unfold midW
+      have hnn : 0 ≤ W n nA i / W n nA M := div_nonneg (W_nonneg n nA i) (le_of_lt hpos)
+      rw [if_neg (not_lt.mpr hnn)]
+      split
+      · rename_i h0; rw [h0]; ring
+      · rfl
+    rw [hz, zero_div]
+  · have : decide (t = 0) = false := by simpa using hk0
+    rw [this]; simp only [Bool.false_eq_true, if_false]
+    congr 1
+    -- right stream
+    have hR : mpU0 t ((List.range (lhFuel nA)).map (gR n nA)) = sumRange M nA f := by
+      rw [mpU0_eq t _ (mem_map_range_nonneg _ (gR_nonneg n nA) _) (pairwise_map_range_antitone _ (gR_antitone n nA h) _),
+        list_sum_map_map, list_sum_range, Finset.range_eq_Ico]
+      have := lattice_up f M (fun i hi => hfoff i (W_off_parity n nA i (by omega))) 0 (lhFuel nA)
+      simp only [Nat.cast_zero, mul_zero, add_zero] at this
+      have e : ∀ j : ℕ, midW t (gR n nA j) = f (M + 2 * (j : ℤ)) := fun j => rfl
+      simp only [e]
+      rw [this]
+      have hge : (nA : ℤ) ≤ M + 2 * (lhFuel nA : ℤ) - 2 := by unfold lhFuel; omega
+      rw [sumRange_split M nA _ f (by omega) hge, sumRange_zero (nA + 1) _ f (fun i hi _ => hfoff i (W_off_hi n nA i (by omega))), add_zero]
+    -- left stream without the mode
+    have hL : mpU0 t ((List.range (lhFuel nA)).map (gL n nA)).tail = sumRange 0 (M - 1) f := by
+      have htail : ((List.range (lhFuel nA)).map (gL n nA)).tail = (List.range' 1 (lhFuel nA - 1)).map (gL n nA) := by
+        rw [← List.map_tail, List.tail_range]
+      rw [htail]
+      have hpw : ((List.range' 1 (lhFuel nA - 1)).map (gL n nA)).Pairwise (· ≥ ·) := by
+        rw [List.pairwise_map]
+        exact List.Pairwise.imp (fun {x y} hxy => gL_antitone n nA h (le_of_lt hxy)) (List.pairwise_lt_range')
+      have hnn : ∀ x ∈ (List.range' 1 (lhFuel nA - 1)).map (gL n nA), 0 ≤ x := by
+        intro x hx; obtain ⟨j, _, rfl⟩ := List.mem_map.mp hx; exact gL_nonneg n nA j
+      rw [mpU0_eq t _ hnn hpw, list_sum_map_map, sum_map_range']
+      have e : ∀ j : ℕ, midW t (gL n nA j) = f (M - 2 * (j : ℤ)) := fun j => rfl
+      simp only [e]
+      rw [lattice_down f M (fun i hi => hfoff i (W_off_parity n nA i (by omega))) 1 (1 + (lhFuel nA - 1))]
+      have hF := lhFuel_pos nA
+      have e1 : M - 2 * ((1 : ℕ) : ℤ) = (M - 2) := by push_cast; ring
+      rw [e1]
+      have hlo : M - 2 * ((1 + (lhFuel (nA : ℤ) - 1) : ℕ) : ℤ) + 2 ≤ 0 := by unfold lhFuel; omega
+      by_cases hM2 : 0 ≤ M - 2
+      · rw [sumRange_split _ (-1) (M - 2) f (by omega) (by omega), sumRange_zero _ (-1) f (fun i _ hi => hfoff i (W_off_lo n nA i (by omega))), zero_add]
+        have : M - 1 = (M - 2) + 1 := by ring
+        rw [show (-1 : ℤ) + 1 = 0 by norm_num, this, sumRange_trim_hi _ _ _ (hfoff _ (W_off_parity n nA _ (by omega)))]
+      · rw [sumRange_zero _ (M - 2) f (fun i _ hi => hfoff i (W_off_lo n nA i (by omega)))]
+        symm
+        apply sumRange_zero
+        intro i hi0 hi1
+        have : i = 0 ∧ M = 1 ∨ M = 0 := by omega
+        rcases this with ⟨rfl, hM1⟩ | hM0
+        · exact hfoff 0 (W_off_parity n nA 0 (by omega))
+        · omega
+    rw [hL, hR]
+    have := sumRange_split 0 (M - 1) nA f (by omega) (by omega)
+    rw [show M - 1 + 1 = M by ring] at this
+    rw [this]
+
+/-- `(1+X)^(2n) = (X(X+2) + 1)^n`, coefficient of `X^m`: choose the `a` individuals carrying the allele, then the `m - a` of them
+carrying it twice; the remaining `2a - m` carriers are heterozygous, each in 2 ways -/
+theorem trinomial (n m : ℕ) :
+    ∑ a ∈ range (n + 1), (if a ≤ m then n.choose a * (2 ^ (a - (m - a)) * a.choose (m - a)) else 0) = (2 * n).choose m := by
+  open Polynomial in
+  have hsq : ((X : ℕ[X]) + 1) ^ 2 = X * (X + C 2) + 1 := by
+    simp only [map_ofNat]; ring
+  open Polynomial in
+  have h1 : (((X : ℕ[X]) + 1) ^ (2 * n)).coeff m = (2 * n).choose m := by
+    rw [Polynomial.coeff_X_add_one_pow]; simp
+  rw [← h1, pow_mul, hsq, add_pow]
+  simp only [one_pow, mul_one, mul_pow, Polynomial.finsetSum_coeff]
+  apply Finset.sum_congr rfl
+  intro a _
+  open Polynomial in
+  rw [Polynomial.coeff_mul_natCast, mul_comm (X ^ a : ℕ[X]), Polynomial.coeff_mul_X_pow']
+  split
+  · rw [Polynomial.coeff_X_add_C_pow]; simp; ring
+  · simp
+
+theorem trinomial' (n m : ℕ) (hm : m ≤ n) :
+    ∑ a ∈ range (m + 1), n.choose a * (2 ^ (a - (m - a)) * a.choose (m - a)) = (2 * n).choose m := by
+  rw [← trinomial n m, ← Finset.sum_filter]
+  congr 1
+  ext a; simp only [Finset.mem_filter, Finset.mem_range]; omega
+
+/-- `n!` times the weight of the outcome with `a` carriers (`2a - nA` heterozygotes) -/
+theorem W_carrier (n nA a : ℕ) (h : nA ≤ n) (ha : a ≤ nA) :
+    (n.factorial : ℚ) * W n nA (-(nA : ℤ) + 2 * (a : ℤ)) = ((n.choose a * (2 ^ (a - (nA - a)) * a.choose (nA - a)) : ℕ) : ℚ) := by
+  by_cases h2 : nA ≤ 2 * a
+  · obtain ⟨k, hk⟩ : ∃ k : ℕ, 2 * a = nA + k := ⟨2 * a - nA, by omega⟩
+    have e : (-(nA : ℤ) + 2 * (a : ℤ)) = (k : ℤ) := by omega
+    unfold W
+    rw [e, lhWeight_on nA (2 * n - nA) k (by omega) (by omega)]
+    have e1 : (nA - k) / 2 = nA - a := by omega
+    have e2 : (2 * n - nA - k) / 2 = n - a := by omega
+    have e3 : a - (nA - a) = k := by omega
+    rw [e1, e2, e3]
+    unfold wN
+    push_cast
+    rw [Nat.cast_choose ℚ (show a ≤ n by omega), Nat.cast_choose ℚ (show nA - a ≤ a by omega)]
+    have e4 : a - (nA - a) = k := e3
+    rw [e4]
+    have h1 : ((n - a).factorial : ℚ) ≠ 0 := by positivity
+    have h2' : ((nA - a).factorial : ℚ) ≠ 0 := by positivity
+    have h3 : (k.factorial : ℚ) ≠ 0 := by positivity
+    have h4 : (a.factorial : ℚ) ≠ 0 := by positivity
+    field_simp
+  · have hW : W n nA (-(nA : ℤ) + 2 * (a : ℤ)) = 0 := W_off_lo n nA _ (by omega)
+    rw [hW, mul_zero, Nat.choose_eq_zero_of_lt (show a < nA - a by omega)]
+    simp
+
+/-- the normaliser in closed form: `S · n! = C(2n, nA)` -/
+theorem S_closed (n nA : ℕ) (h : nA ≤ n) : (n.factorial : ℚ) * S n nA = ((2 * n).choose nA : ℚ) := by
+  have hS : S n nA = sumRange (-(nA : ℤ)) nA (W n nA) := by
+    have h0 : S n nA = sumRange 0 nA (W n nA) := by
+      rw [sumRange_eq]; unfold S Wn
+      have : ((nA : ℤ) + 1 - 0).toNat = nA + 1 := by omega
+      rw [this]; simp
+    rw [h0]
+    by_cases hz : nA = 0
+    · subst hz; simp
+    · rw [sumRange_split (-(nA : ℤ)) (-1) nA (W n nA) (by omega) (by omega),
+        sumRange_zero _ (-1) (W n nA) (fun i _ hi => W_off_lo n nA i (by omega)), zero_add]
+      norm_num
+  have hlat := lattice_up (W n nA) (-(nA : ℤ)) (fun k hk => W_off_parity n nA k (by omega)) 0 (nA + 1)
+  simp only [Nat.cast_zero, mul_zero, add_zero] at hlat
+  have e : -(nA : ℤ) + 2 * ((nA + 1 : ℕ) : ℤ) - 2 = nA := by push_cast; ring
+  rw [e] at hlat
+  rw [hS, ← hlat, ← Finset.range_eq_Ico, Finset.mul_sum, ← trinomial' n nA h]
+  push_cast
+  apply Finset.sum_congr rfl
+  intro a ha
+  rw [Finset.mem_range] at ha
+  rw [W_carrier n nA a h (by omega)]
+  push_cast; ring
+
+/-- the normalised weight is the textbook closed form -/
+theorem pmf_closed (n nA : ℕ) (h : nA ≤ n) (k : ℤ) : W n nA k / S n nA = lhPmf n nA k := by
+  have hS := S_closed n nA h
+  have hfac : ((2 * n).choose nA : ℚ) * (nA.factorial : ℚ) * ((2 * n - nA).factorial : ℚ) = ((2 * n).factorial : ℚ) := by
+    have := Nat.choose_mul_factorial_mul_factorial (show nA ≤ 2 * n by omega)
+    exact_mod_cast this
+  unfold lhPmf
+  simp only [fact_eq]
+  have hn : (n.factorial : ℚ) ≠ 0 := by positivity
+  have h2n : ((2 * n).factorial : ℚ) ≠ 0 := by positivity
+  have hSpos : S n nA ≠ 0 := by
+    intro h0; rw [h0, mul_zero] at hS
+    have : (0 : ℚ) < ((2 * n).choose nA : ℚ) := by exact_mod_cast Nat.choose_pos (show nA ≤ 2 * n by omega)
+    linarith
+  show lhWeight nA (2 * n - nA) k / S n nA = _
+  rw [div_eq_div_iff hSpos h2n, ← hfac, ← hS]
+  ring
+
+theorem S_eq_mul (n nA : ℕ) (h : nA ≤ n) : W n nA (refMode n nA) * T n nA = S n nA := by
+  rw [T_eq n nA h, mul_div_cancel₀ _ (ne_of_gt (W_mode_pos n nA h))]
+
+theorem S_pos (n nA : ℕ) (h : nA ≤ n) : 0 < S n nA := by
+  rw [← S_eq_mul n nA h]; exact mul_pos (W_mode_pos n nA h) (T_pos n nA h)
+
+/-- `probability(k) = P(k)` (closed form), every integer `k` -/
+theorem probability_eq_pmf (n nA : ℕ) (h : nA ≤ n) (k : ℤ) :
+    Exact.LeveneHaldane_probability 0 (refDist' n nA) k = lhPmf n nA k := by
+  rw [probability_refDist n nA h k, S_eq_mul n nA h, pmf_closed n nA h]
+
+theorem cum2_eq_pmf (n nA : ℕ) (h : nA ≤ n) (n0 n1 : ℤ) :
+    Exact.LeveneHaldane_cumulativeProbability_2 0 (refDist' n nA) n0 n1 = sumRange (n0 + 1) n1 (lhPmf n nA) := by
+  rw [cum2_refDist n nA h, S_eq_mul n nA h, ← sumRange_div]
+  exact sumRange_congr _ _ _ _ (fun k _ _ => pmf_closed n nA h k)
+
+theorem lhPmf_nonneg (n nA : ℕ) (k : ℤ) : 0 ≤ lhPmf n nA k := by
+  unfold lhPmf
+  have := lhWeight_nonneg nA (2 * n - nA) k
+  simp only [fact_eq]
+  positivity
+
+theorem lhPmf_sum_one (n nA : ℕ) (h : nA ≤ n) : sumRange 0 nA (lhPmf n nA) = 1 := by
+  have : sumRange 0 nA (lhPmf n nA) = sumRange 0 nA (fun k => W n nA k / S n nA) :=
+    sumRange_congr _ _ _ _ (fun k _ _ => (pmf_closed n nA h k).symm)
+  rw [this, sumRange_div]
+  have h0 : sumRange 0 nA (W n nA) = S n nA := by
+    rw [sumRange_eq]; unfold S Wn
+    have : ((nA : ℤ) + 1 - 0).toNat = nA + 1 := by omega
+    rw [this]; simp
+  rw [h0]; exact div_self (ne_of_gt (S_pos n nA h))
+
+theorem lhPmf_off (n nA : ℕ) (k : ℤ) (hk : ¬ lhSupp nA k) : lhPmf n nA k = 0 := by
+  unfold lhPmf; rw [lhWeight_off _ _ _ hk]; simp
+
+/-- a sub-range of the support carries at most the total mass -/
+theorem sumRange_pmf_le_one (n nA : ℕ) (h : nA ≤ n) (lo hi : ℤ) : sumRange lo hi (lhPmf n nA) ≤ 1 := by
+  rw [← lhPmf_sum_one n nA h, sumRange_eq, sumRange_eq]
+  have e : ((nA : ℤ) + 1 - 0).toNat = nA + 1 := by omega
+  rw [e]
+  -- inject the index set {lo + i} ∩ [0, nA] into range (nA + 1); the rest carries no mass
+  have hsplit : ∑ i ∈ range (hi + 1 - lo).toNat, lhPmf n nA (lo + (i : ℤ))
+      = ∑ i ∈ (range (hi + 1 - lo).toNat).filter (fun i : ℕ => 0 ≤ lo + (i : ℤ) ∧ lo + (i : ℤ) ≤ nA), lhPmf n nA (lo + (i : ℤ)) := by
+    symm
+    apply Finset.sum_filter_of_ne
+    intro i _ hne
+    by_contra hc
+    exact hne (lhPmf_off n nA _ (by unfold lhSupp; omega))
+  rw [hsplit]
+  have himg : ∑ i ∈ (range (hi + 1 - lo).toNat).filter (fun i : ℕ => 0 ≤ lo + (i : ℤ) ∧ lo + (i : ℤ) ≤ nA), lhPmf n nA (lo + (i : ℤ))
+      = ∑ j ∈ ((range (hi + 1 - lo).toNat).filter (fun i : ℕ => 0 ≤ lo + (i : ℤ) ∧ lo + (i : ℤ) ≤ nA)).image (fun i : ℕ => (lo + (i : ℤ)).toNat), lhPmf n nA (0 + (j : ℤ)) := by
+    rw [Finset.sum_image]
+    · apply Finset.sum_congr rfl
+      intro i hi'
+      rw [Finset.mem_filter] at hi'
+      congr 1; omega
+    · intro i hi' j hj' hij
+      rw [Finset.mem_coe, Finset.mem_filter] at hi' hj'
+      dsimp only at hij
+      omega
+  rw [himg]
+  apply Finset.sum_le_sum_of_subset_of_nonneg
+  · intro j hj
+    rw [Finset.mem_image] at hj
+    obtain ⟨i, hi', rfl⟩ := hj
+    rw [Finset.mem_filter] at hi'
+    rw [Finset.mem_range]; omega
+  · intro j _ _; exact lhPmf_nonneg n nA _
+
+theorem midW_scale (c t x : ℚ) (hc : 0 < c) : midW (c * t) (c * x) = c * midW t x := by
+  unfold midW
+  by_cases h1 : x < t
+  · rw [if_pos h1, if_pos (mul_lt_mul_of_pos_left h1 hc)]
+  · rw [if_neg h1, if_neg (by intro h'; exact h1 (lt_of_mul_lt_mul_left h' (le_of_lt hc)))]
+    by_cases h2 : x = t
+    · rw [if_pos h2, if_pos (by rw [h2])]; ring
+    · rw [if_neg h2, if_neg (by intro h'; exact h2 (mul_left_cancel₀ (ne_of_gt hc) h')), mul_zero]
+
+theorem exactMidP_eq_spec (n nA : ℕ) (h : nA ≤ n) (k : ℤ) :
+    Exact.LeveneHaldane_exactMidP 0 (refDist' n nA) k = lhExactMidP n nA k := by
+  have hpos := W_mode_pos n nA h
+  have hT := T_pos n nA h
+  rw [exactMidP_refDist n nA h k, ← sumRange_div]
+  unfold lhExactMidP
+  apply sumRange_congr
+  intro i _ _
+  have hc : (0 : ℚ) < 1 / T n nA := by positivity
+  have e : ∀ j : ℤ, lhPmf n nA j = (1 / T n nA) * (W n nA j / W n nA (refMode n nA)) := by
+    intro j
+    rw [← pmf_closed n nA h j, ← S_eq_mul n nA h]
+    field_simp
+  rw [e i, e k]
+  have := midW_scale (1 / T n nA) (W n nA k / W n nA (refMode n nA)) (W n nA i / W n nA (refMode n nA)) hc
+  unfold midW at this ⊢
+  rw [this]
+  ring
+
+theorem sumRange_le_sumRange (lo hi : ℤ) (f g : ℤ → ℚ) (h : ∀ k, f k ≤ g k) : sumRange lo hi f ≤ sumRange lo hi g := by
+  rw [sumRange_eq, sumRange_eq]; exact Finset.sum_le_sum (fun i _ => h _)
+
+theorem survival_mk (n' nA' M : ℤ) (pRU pLU : List ℚ) (pN : ℚ) (n0 : ℤ) :
+    Exact.LeveneHaldane_survivalFunction 0 (LHDist.mk n' nA' M pRU pLU pN) n0 =
+      Exact.LeveneHaldane_cumulativeProbability_2 0 (LHDist.mk n' nA' M pRU pLU pN) n0 nA' := rfl
+
+theorem survival_eq_spec (n nA : ℕ) (h : nA ≤ n) (k : ℤ) :
+    Exact.LeveneHaldane_survivalFunction 0 (refDist' n nA) k = lhSf n nA k := by
+  unfold refDist'
+  rw [survival_mk]
+  exact cum2_eq_pmf n nA h k nA
+
+theorem cum1_eq_spec (n nA : ℕ) (h : nA ≤ n) (k : ℤ) :
+    Exact.LeveneHaldane_cumulativeProbability_1 0 (refDist' n nA) k = lhCdf n nA k := by
+  unfold Exact.LeveneHaldane_cumulativeProbability_1
+  rw [cum2_eq_pmf n nA h]
+  unfold lhCdf; norm_num
+
+theorem rightMidP_eq_spec (n nA : ℕ) (h : nA ≤ n) (k : ℤ) :
+    Exact.LeveneHaldane_rightMidP 0 (refDist' n nA) k = lhRightMidP n nA k := by
+  unfold Exact.LeveneHaldane_rightMidP
+  rw [survival_eq_spec n nA h, probability_eq_pmf n nA h]; rfl
+
+theorem leftMidP_eq_spec (n nA : ℕ) (h : nA ≤ n) (k : ℤ) :
+    Exact.LeveneHaldane_leftMidP 0 (refDist' n nA) k = lhLeftMidP n nA k := by
+  unfold Exact.LeveneHaldane_leftMidP
+  rw [cum1_eq_spec n nA h, probability_eq_pmf n nA h]; rfl
+
+/-! ### every p-value of the distribution lies in [0, 1] -/
+
+theorem lhSf_unit (n nA : ℕ) (h : nA ≤ n) (k : ℤ) : 0 ≤ lhSf n nA k ∧ lhSf n nA k ≤ 1 :=
+  ⟨sumRange_nonneg _ _ _ (lhPmf_nonneg n nA), sumRange_pmf_le_one n nA h _ _⟩
+
+theorem lhCdf_unit (n nA : ℕ) (h : nA ≤ n) (k : ℤ) : 0 ≤ lhCdf n nA k ∧ lhCdf n nA k ≤ 1 :=
+  ⟨sumRange_nonneg _ _ _ (lhPmf_nonneg n nA), sumRange_pmf_le_one n nA h _ _⟩
+
+theorem lhRightMidP_unit (n nA : ℕ) (h : nA ≤ n) (k : ℤ) : 0 ≤ lhRightMidP n nA k ∧ lhRightMidP n nA k ≤ 1 := by
+  have hp := lhPmf_nonneg n nA k
+  have hs := (lhSf_unit n nA h k).1
+  unfold lhRightMidP
+  refine ⟨by linarith, ?_⟩
+  unfold lhSf
+  by_cases hk : k ≤ nA
+  · have := sumRange_first k nA (lhPmf n nA) hk
+    have h1 := sumRange_pmf_le_one n nA h k nA
+    linarith
+  · have : lhPmf n nA k = 0 := lhPmf_off n nA k (by unfold lhSupp; omega)
+    rw [this, sumRange_empty _ _ _ (by omega)]; norm_num
+
+theorem lhLeftMidP_unit (n nA : ℕ) (h : nA ≤ n) (k : ℤ) : 0 ≤ lhLeftMidP n nA k ∧ lhLeftMidP n nA k ≤ 1 := by
+  have hp := lhPmf_nonneg n nA k
+  have hc := lhCdf_unit n nA h k
+  unfold lhLeftMidP
+  refine ⟨?_, by linarith⟩
+  unfold lhCdf
+  by_cases hk : 0 ≤ k
+  · have e : k = (k - 1) + 1 := by ring
+    have := sumRange_succ 0 (k - 1) (lhPmf n nA) (by omega)
+    rw [← e] at this
+    have h1 := sumRange_nonneg 0 (k - 1) (lhPmf n nA) (lhPmf_nonneg n nA)
+    linarith
+  · have : lhPmf n nA k = 0 := lhPmf_off n nA k (by unfold lhSupp; omega)
+    rw [this, sumRange_empty _ _ _ (by omega)]; norm_num
+
+theorem lhExactMidP_unit (n nA : ℕ) (h : nA ≤ n) (k : ℤ) : 0 ≤ lhExactMidP n nA k ∧ lhExactMidP n nA k ≤ 1 := by
+  unfold lhExactMidP
+  constructor
+  · apply sumRange_nonneg
+    intro j
+    have := midW_nonneg (lhPmf n nA k) (lhPmf n nA j) (lhPmf_nonneg n nA j)
+    unfold midW at this; exact this
+  · have hle := sumRange_le_sumRange 0 nA
+      (fun j => if lhPmf n nA j < lhPmf n nA k then lhPmf n nA j else if lhPmf n nA j = lhPmf n nA k then 1 / 2 * lhPmf n nA j else 0)
+      (lhPmf n nA) (fun j => by
+        have := midW_le (lhPmf n nA k) (lhPmf n nA j) (lhPmf_nonneg n nA j)
+        unfold midW at this; exact this)
+    rw [lhPmf_sum_one n nA h] at hle
+    exact hle
+
+/-! ### hardyWeinbergTest -/
+
+theorem hwe_nA_le (r h v : ℕ) : hweNA r h v ≤ hweN r h v := by unfold hweNA hweN; omega
+
+theorem hwe_eval (r h v : ℕ) (os : Bool) :
+    Exact.stats_hardyWeinbergTest 0 r h v os =
+      Out.val [lhMean (hweN r h v) (hweNA r h v) / ((hweN r h v : ℕ) : ℚ),
+        if os then lhRightMidP (hweN r h v) (hweNA r h v) h else lhExactMidP (hweN r h v) (hweNA r h v) h] := by
+  have hle := hwe_nA_le r h v
+  have e1 : (r : ℤ) + h + v = ((hweN r h v : ℕ) : ℤ) := by unfold hweN; push_cast; ring
+  have e2 : (h : ℤ) + 2 * min (r : ℤ) (v : ℤ) = ((hweNA r h v : ℕ) : ℤ) := by unfold hweNA; push_cast; ring
+  unfold Exact.stats_hardyWeinbergTest
+  have hg : ((decide ((r : ℤ) < 0) || decide ((h : ℤ) < 0)) || decide ((v : ℤ) < 0)) = false := by simp
+  simp only [hg, Bool.false_eq_true, if_false]
+  rw [e1, e2]
+  unfold Exact.LeveneHaldane_apply_2
+  rw [apply_val _ _ hle, refDist_eq _ _ hle]
+  simp only [Out.bind]
+  rw [rightMidP_eq_spec _ _ hle, exactMidP_eq_spec _ _ hle]
+  congr 2
+  · unfold Exact.LeveneHaldane_getNumericalMean Exact.LeveneHaldane_nB refDist' lhMean
+    simp only
+    congr 1
+    have hq : ((2 * hweN r h v - hweNA r h v : ℕ) : ℚ) = 2 * ((hweN r h v : ℕ) : ℚ) - ((hweNA r h v : ℕ) : ℚ) := by
+      rw [Nat.cast_sub (by omega)]; push_cast; ring
+    rw [hq]
+    push_cast
+    ring
 
 end HailVerif.StatsProofs
